@@ -75,6 +75,23 @@ pub fn check(t: &Trace<'_>, out: &mut CaseOut) -> bool {
                 }
             }
         }
+        // a connection that never goes idle because a retained request above its Maximum Packet
+        // Size is refused whenever its turn comes (PacketTooLarge, the handle stays up): the
+        // PUBRELs (five bytes as this client writes them) fit and are owed all the same - once a
+        // wait has ended that way, they are out
+        if ci.mps.is_none_or(|m| m >= 5) && ci.stream_ok {
+            let refused = t.log.ops.iter().find(|o| o.conn == Some(ci.idx) && o.ev_call > t0 && matches!(o.kind, "poll" | "recv" | "drive") && o.outcome == Outcome::Err(ErrRepr::PacketTooLarge) && o.live_after && !t.w.events[o.ev_call..o.ev_ret].iter().any(|e| matches!(e, crate::world::Ev::Consumed { .. })));
+            if let Some(o) = refused {
+                out.count("resumes_with_a_replay_refused_as_too_large", 1);
+                for msg in &in_release {
+                    let n = msg.rels.iter().filter(|r| r.conn == ci.idx && r.ev <= o.ev_ret).count();
+                    if n == 0 && msg.outstanding_at(o.ev_ret) {
+                        out.violations.push(viol("C03", "C03/pubrel-held-back-behind-a-refused-packet", format!("op#{} id {}: {} on resumed conn {} (Maximum Packet Size {:?}) ended with PacketTooLarge for a retained request, the handle stays up, and the PUBREL owed for this exchange has not been sent", msg.op, msg.pid, o.kind, ci.idx, ci.mps)));
+                        break;
+                    }
+                }
+            }
+        }
         // order of replayed PUBRELs = order in which the PUBRECs were consumed
         let mut seq: Vec<(usize, usize, u16)> = Vec::new(); // (wire ev, rec ev, pid)
         for msg in &in_release {
